@@ -668,7 +668,15 @@ pub fn realise(plan: &Plan) -> Vec<Rec> {
             parent: *fine as u64,
             begin: 1_700_000_000_000_000_000 + i as u64 * 1000,
             dur: 1000 + *fine as u64,
-            name: format!("s{}", i),
+            // span names: mostly short, some long, some long with multi-byte characters at
+            // every alignment (sizes are steered by the padding below, whatever the name is)
+            name: match (fine >> 1) % 8 {
+                4 => format!("{}-s{}", "long-operation-name/".repeat(1 + (*fine as usize >> 4) % 9), i),
+                5 => format!("{}{}", "操作名称跨度".repeat(4 + (*fine as usize >> 4) % 8), i),
+                6 => format!("{}{}{}", "x".repeat((*fine as usize >> 4) % 4), "é".repeat(40), i),
+                7 => format!("{}🦀{}", "𝔘ñ€".repeat(3 + (*fine as usize >> 4) % 20), i),
+                _ => format!("s{}", i),
+            },
             props: vec![("pad".to_string(), String::new())],
             events: vec![],
         };
@@ -778,6 +786,16 @@ pub enum Outcome {
     Inconclusive(String),
 }
 
+fn panic_text(p: &Box<dyn std::any::Any + Send>) -> String {
+    if let Some(s) = p.downcast_ref::<&str>() {
+        s.to_string()
+    } else if let Some(s) = p.downcast_ref::<String>() {
+        s.clone()
+    } else {
+        "<non-string panic payload>".to_string()
+    }
+}
+
 pub fn run_jaeger(udp: &UdpSink, batch: &[Rec], prop: &str) -> Outcome {
     run_jaeger_seq(udp, &[], batch, prop)
 }
@@ -803,15 +821,20 @@ pub fn run_jaeger_seq(udp: &UdpSink, prior: &[Vec<Rec>], batch: &[Rec], prop: &s
                 let _ = tx.send(());
                 rep
             });
-            if rx.recv_timeout(Duration::from_secs(30)).is_err() {
-                TIMED_OUT.store(true, std::sync::atomic::Ordering::SeqCst);
-                std::mem::forget(h);
-            } else {
-                back = h.join().ok();
+            match rx.recv_timeout(Duration::from_secs(30)) {
+                Err(std::sync::mpsc::RecvTimeoutError::Timeout) => {
+                    TIMED_OUT.store(true, std::sync::atomic::Ordering::SeqCst);
+                    std::mem::forget(h);
+                }
+                // sent, or the sender was dropped by a panic inside report()
+                _ => back = Some(h.join()),
             }
         });
         match back {
-            Some(r) => rep = r,
+            Some(Ok(r)) => rep = r,
+            Some(Err(p)) => {
+                return Outcome::Viols(vec![v("report-panicked", format!("JaegerReporter::report panicked for earlier batch #{} ({} records) of the same reporter: {}", k, pb.len(), panic_text(&p)))]);
+            }
             None => {
                 return Outcome::Viols(vec![v("report-did-not-return", format!("JaegerReporter::report did not return within 30 s for earlier batch #{} ({} records) of the same reporter", k, pb.len()))]);
             }
@@ -820,19 +843,28 @@ pub fn run_jaeger_seq(udp: &UdpSink, prior: &[Vec<Rec>], batch: &[Rec], prop: &s
     let records: Vec<_> = batch.iter().map(|r| r.to_record()).collect();
     // the call must terminate: run it on a helper thread with a deadline
     let (tx, rx) = channel();
+    let mut panicked: Option<String> = None;
     let res = capture_udp(udp, || {
         let h = std::thread::spawn(move || {
             rep.report(records);
             let _ = tx.send(());
         });
-        if rx.recv_timeout(Duration::from_secs(30)).is_err() {
-            // leave the thread behind; reported below
-            TIMED_OUT.store(true, std::sync::atomic::Ordering::SeqCst);
-            std::mem::forget(h);
-        } else {
-            let _ = h.join();
+        match rx.recv_timeout(Duration::from_secs(30)) {
+            Err(std::sync::mpsc::RecvTimeoutError::Timeout) => {
+                // leave the thread behind; reported below
+                TIMED_OUT.store(true, std::sync::atomic::Ordering::SeqCst);
+                std::mem::forget(h);
+            }
+            _ => {
+                if let Err(p) = h.join() {
+                    panicked = Some(panic_text(&p));
+                }
+            }
         }
     });
+    if let Some(msg) = panicked {
+        return Outcome::Viols(vec![v("report-panicked", format!("JaegerReporter::report panicked for a batch of {} records (after {} earlier batches on the same reporter): {}", batch.len(), prior.len(), msg))]);
+    }
     if TIMED_OUT.load(std::sync::atomic::Ordering::SeqCst) {
         // the call must terminate; 30 s for one batch of at most a few hundred records on
         // loopback is three orders of magnitude above the normal time. The process is not
